@@ -236,6 +236,7 @@ def run(chk, facts, tier, only=None):
         push_at = [i for i, st in enumerate(blk) if (st.get("e") if st.get("k") == "semi" else st).get("k") == "mcall"
                    and (st.get("e") if st.get("k") == "semi" else st)["m"] == "push"][0]
         tests = []
+        sanctioned = []
         for i, st in enumerate(blk[:push_at]):
             s = st.get("e") if st.get("k") == "semi" else st
             if s.get("k") == "if" and unblock(s["c"]).get("k") == "bin" and any(x.get("k") == "ret" for x in walk(s["t"])):
@@ -243,6 +244,16 @@ def run(chk, facts, tier, only=None):
                 rhs = expr_path(cnd["b"]) or ""
                 lhs_len = any(x.get("k") == "mcall" and x["m"] == "len" for x in walk(cnd["a"]))
                 tests.append((cnd["op"], rhs.rsplit("::", 1)[-1], lhs_len))
+                sanctioned.append(s)
+        # ... and these are the only rejections of the visitor's own making: every other explicit `return Err(..)` / Err tail refuses
+        # vectors by some other measure than the three limits (errors of the element decoder, propagated with `?`, are not the visitor's)
+        own = [x for x in walk(v["body"]) if x.get("k") == "call" and (callee(x) or "").endswith("Result::Err")]
+        extra = [x for x in own if not any(any(y is x for y in walk(sx["t"])) for sx in sanctioned)]
+        chk.expect(not extra, "bounded-vec:no-other-rejection",
+                   f"BoundedVec's visit_seq builds an error outside the three limit tests ({len(extra)} site(s), first at line "
+                   f"{extra[0].get('ln') if extra else None}): a vector within its limits may be refused (or the limits are measured by something "
+                   f"other than len() / DataSize::data_size())", where=f"{v['span']['file']}:{extra[0].get('ln')}" if extra else None,
+                   ok_detail=f"{len(own)} Err(..) constructions, all inside the three limit tests")
         want = {("Ge", "MAX_ALLOWED_LEN", True), ("Gt", "MAX_ALLOWED_ELEMENT_DATA_SIZE", False), ("Gt", "MAX_ALLOWED_TOTAL_DATA_SIZE", False)}
         chk.expect(set(tests) == want, "bounded-vec:three-limit-tests-before-push",
                    f"BoundedVec's visit_seq must reject, before pushing an element, when len() >= MAX_ALLOWED_LEN, when the element's data size "
@@ -259,7 +270,11 @@ def run(chk, facts, tier, only=None):
             ops = {expr_path(add["a"]), expr_path(add["b"])}
             acc = [a for a, b in stores if b == tot_var[0]][0]
             okk = acc in ops and len(ops) == 2
-        chk.expect(okk, "bounded-vec:running-total", "the total that is tested against the limit must be `total + this element's size`, and must be stored back as the new running total")
+            # the other summand is this element's DataSize::data_size()
+            other = [o for o in ops if o != acc]
+            ini = lets.get(other[0]) if other else None
+            okk = okk and ini is not None and unblock(ini).get("k") == "mcall" and unblock(ini)["m"] == "data_size"
+        chk.expect(okk, "bounded-vec:running-total", "the total that is tested against the limit must be `total + element.data_size()`, and must be stored back as the new running total")
 
     for rid, desc, fn in (("C08.R1", "every wire read is preceded by tests of both the expected and the wire type", r1),
                           ("C08.R2", "fast paths are justified by tests of both component types and re-scoped per component", r2),
